@@ -19,6 +19,54 @@ PROPS = {
         "level_note": "trusted: the reference formula in the harness (set based, 30 lines), Go float64 arithmetic, rapid's generators; tolerance 1e-9 relative",
         "expect_classes": {"lists": ["no matching gene", "excess and disjoint", "gene-less side", "different lengths with disjoint genes"]},
     },
+    "C18": {
+        "run": "^TestC18",
+        "shards": 12,
+        "technique": "property-based testing (rapid): generated (type, float64) inputs biased to breakpoints/zeros/extremes against closed-form reference functions, range and monotonicity relations, name/code bijection",
+        "level_text": "Generated-input search over all 23 registered types: scalar inputs up to |x| = 1e300 incl. breakpoints and their float neighbours, ordered pairs for monotonicity, "
+                      "module vectors incl. all-below--9.2e18, all 256 type codes and registered / mangled / random names. Sampling, not a proof over float64.",
+        "level_note": "trusted: the harness's table of closed forms, ranges and monotone flags (written from the definitions), Go math library; tolerance 1e-12 relative, monotonicity slack 2^-50 for exp-based functions",
+        "rule": "scalar: (type, x, y) with x,y from a mixture of uniform, log-uniform to 1e300, breakpoints and 1-3 ulp neighbours (y adjacent to x half of the time); "
+                "module: vectors of length 1-8; name: codes 0-255 and registered/mangled/random names; every case is non-trivial, distinct = distinct (type, high bits of x and y) / (type, len, high bits) / (code, name)",
+        "assumptions": ["reference = closed forms written in the harness from the documented definitions", "inputs finite with |x| <= 1e300"],
+        "expect_classes": {"scalar": ["negative zero input", "huge input", "monotonicity pair"], "module": ["all entries below -9.3e18"], "name": ["registered code", "unregistered code", "registered name", "unknown name"]},
+    },
+    "C19": {
+        "run": "^TestC19",
+        "shards": 12,
+        "technique": "property-based testing (rapid): generated float series in every order against textbook / empirical-quantile references computed on a sorted copy; generated experiment records against aggregates recomputed from the generations",
+        "level_text": "Generated-input search: series of length 0-400 (duplicates, wide range, sorted / reversed / shuffled) for the ten descriptive statistics incl. panics and receiver mutation; "
+                      "synthetic experiments (0-6 trials x 0-12 generations, any solved pattern) for every aggregate named in the property.",
+        "level_note": "trusted: the harness's reference statistics (two-pass variance, empirical quantile by definition); tolerance 1e-9 relative to sum|x| for computed values, exact for order statistics; unbiased variance of a single value is not compared",
+        "rule": "series: mixture of small-integer / uniform / wide-range / fitness-like values, ascending, descending or shuffled; non-trivial = non-empty and not ascending; "
+                "aggregates: non-trivial = at least 2 trials and 3 generations; distinct by (n, leading value, median) resp. (trials, generations, solved trials)",
+        "assumptions": ["champions are non-nil (the record format has no presence marker and the library always sets one)", "fitness ties between champions admit any of the tied organisms"],
+        "expect_classes": {"series": ["empty series", "not ascending"], "aggregates": ["solved trial", "solved and unsolved trials", "trial without generations", "no trials"]},
+    },
+    "C06": {
+        "run": "^TestC06",
+        "shards": 12,
+        "technique": "property-based testing (rapid): generated genomes (disabled/recurrent genes, nil traits, modules) duplicated and compared field by field with a value snapshot; pointer-disjointness; generated mutation sequences on one side with the other side's snapshot as oracle; spawn relation",
+        "level_text": "Generated-input search over hand-built well-formed genomes incl. modular ones: equality of every genetic field, no shared mutable object (pointer identity over traits, nodes, links, genes, modules, backing arrays), "
+                      "and behavioural independence under up to 6 generated mutators; populations spawned from such genomes differ only in weights / mirrored mutation numbers.",
+        "level_note": "trusted: the harness's snapshot/diff (M2) and Build, which round-trip each other on every case; structural mutators are applied to non-modular genomes only",
+        "rule": "G-direct genomes (1-5 inputs, 0-2 bias, 1-3 outputs, 0-8 hidden, 1-20 genes, 0-2 modules); non-trivial = genome with a disabled gene, a module or a nil trait; distinct by (#nodes, #genes, #modules, #disabled, #recurrent, #nil traits)",
+        "assumptions": ["trait ids are consecutive and >= 1 (0 is the file syntax for 'no trait')", "a panic inside a mutator is attributed to C01/C05, not to C06"],
+        "expect_classes": {"dup": ["disabled gene", "recurrent gene", "nil trait", "modular", "disabled module"], "spawn": ["start genome with disabled genes", "modular start genome"]},
+    },
+    "C04": {
+        "run": "^TestC04",
+        "shards": 12,
+        "technique": "property-based testing (rapid): parent pairs constructed from a common gene table (controlled alignment patterns, ties, disabled genes) x 3 crossover methods x seeds, checked gene by gene against the inheritance relation; parents' snapshots as oracle for 'unmodified'",
+        "level_text": "Generated-input search: pairs of well-formed genomes of one lineage (shared start genes, splits, links re-invented under new numbers), all fitness orderings incl. the three kinds of tie, "
+                      "each child checked against the relation stated in the property (membership, uniqueness, endpoints, weights, donors, enabled flags, node set, traits).",
+        "level_note": "trusted: the gene-table generator (its members are re-validated with M1 before use) and the relation coded from the statement; weights compared exactly (they are copied or averaged once)",
+        "rule": "G-family pairs: 1-3 inputs, optional bias, 1-2 outputs, up to 12 (24 thorough) structural events, per-member inclusion probability, own weights/flags; non-trivial = parents differ in at least one gene; "
+                "distinct by (method, #genes of both parents and child, donor, #single-parent genes from each side)",
+        "assumptions": ["parents share a common ancestry: equal innovation number => equal link, equal trait count, all start genes present", "on a full tie (equal fitness and gene count) only 'all single-parent genes from one parent' is required",
+                        "nothing is asserted about the enabled flag when the carrying parents disagree or both have it disabled"],
+        "expect_classes": {"family": ["single-parent gene that is disabled", "matching gene disabled in exactly one parent", "tie with equal gene counts", "tie, first parent smaller", "tie, second parent smaller", "parents carry the same genes", "single-parent genes inherited"]},
+    },
 }
 
 # properties that the technique can not decide (none): id -> reason
